@@ -97,6 +97,11 @@ func execUfs(line string) (string, bool) {
 		return filepath.Clean(p), true
 	case "ufsjudge":
 		return "*", true
+	case "ufswitness":
+		if t[1] == "K-5" && witnessCtx != nil {
+			witnessK5(witnessCtx, line)
+		}
+		return "*", true
 	}
 	// dirwin / readn / uwalk lines are produced together with the run that observed them;
 	// replaying them needs the tree, which the scenario line (ufsjudge …) recreates.
@@ -160,7 +165,7 @@ func genC14(c *Ctx) {
 			if off < len(x.data) {
 				want = x.data[off:]
 			}
-			switch r.Intn(5) {
+			switch r.Intn(7) {
 			case 0: // Clnt.Read: one message, clamped to iounit
 				b, err := e.c.Read(x.f.Fid, uint64(off), uint32(cnt))
 				w := want
@@ -230,6 +235,29 @@ func genC14(c *Ctx) {
 				}
 				f2.Close()
 				c.count("op:fileread")
+			case 5: // File.Write advances by what was written: two writes in a row, buffers above iounit
+				nm := fmt.Sprintf("w%d", step)
+				f3, err := e.c.FCreate(nm, 0o644, g.OWRITE)
+				if err != nil {
+					continue
+				}
+				var exp []byte
+				for round := 0; round < 2; round++ {
+					d := make([]byte, []int{1, io - 1, io, io + 1, 3*io + 5}[r.Intn(5)])
+					r.Read(d)
+					n, err := f3.Write(d)
+					if err != nil || n < 1 || n > len(d) || n > io {
+						c.oracleFail("C14/filewrite", fmt.Sprintf("File.Write(%d bytes), iounit %d: %d %v", len(d), io, n, err), line)
+						break
+					}
+					exp = append(exp, d[:n]...)
+				}
+				f3.Close()
+				got, _ := os.ReadFile(filepath.Join(e.root, nm))
+				if !bytes.Equal(got, exp) {
+					c.oracleFail("C14/filewrite-offset", fmt.Sprintf("after two File.Write calls the file has %d bytes, the writes reported %d (first difference at %d)", len(got), len(exp), firstDiff(got, exp)), line)
+				}
+				c.count("op:filewrite")
 			default: // Clnt.Write single message
 				d := make([]byte, cnt)
 				r.Read(d)
@@ -447,6 +475,31 @@ func genC15(c *Ctx) {
 				}
 				c.count("probe:" + kind)
 				c.emit(fmt.Sprintf("dirwin %s %d %d", endsTxt, off, cnt), obs, err == nil)
+				// the statement's own oracle at offsets the rule allows
+				isEnd := off == 0
+				for _, x := range ends {
+					if uint64(x) == off {
+						isEnd = true
+					}
+				}
+				if isEnd && err == nil {
+					endAt := func(v int) bool {
+						for _, x := range ends {
+							if x == v {
+								return true
+							}
+						}
+						return v == 0
+					}
+					switch {
+					case len(b) == 0 && int(off) < total:
+						c.oracleFail("C15/empty-reply-before-end", fmt.Sprintf("read at %d count %d of a %d-byte listing returned nothing and no error", off, cnt, total), line)
+					case len(b) > int(cnt):
+						c.oracleFail("C15/count", fmt.Sprintf("%d bytes for count %d", len(b), cnt), line)
+					case !endAt(int(off) + len(b)):
+						c.oracleFail("C15/whole-records", fmt.Sprintf("read at %d count %d returned %d bytes: not a whole number of entries", off, cnt, len(b)), line)
+					}
+				}
 			}
 			// every count from the largest entry up to three entries, at every entry boundary (small directories)
 			if len(ends) <= 8 && largest > 0 {
@@ -802,7 +855,60 @@ func genC17(c *Ctx) {
 		for step := 0; step < 10; step++ {
 			var what string
 			var e9, ep error
-			switch op := r.Intn(8); op {
+			switch op := r.Intn(10); op {
+			case 8: // symlink (9P2000.u only), to an existing target, onto free and occupied names
+				if !dotu {
+					continue
+				}
+				dir := []string{"", "d1"}[r.Intn(2)]
+				name := []string{"ln1", "ln2", "a", "d2"}[r.Intn(4)]
+				if dir == "d1" && (name == "a" || name == "d2") {
+					name = "x"
+				}
+				target := []string{"a", "b", "d2"}[r.Intn(3)]
+				if dir == "d1" {
+					target = "../" + target
+				}
+				what = fmt.Sprintf("symlink %s/%s -> %s", dir, name, target)
+				df, werr := e.c.FWalk(dir)
+				e9 = werr
+				if werr == nil {
+					e9 = e.c.Create(df, name, g.DMSYMLINK, g.OREAD, target)
+					e.c.Clunk(df)
+				}
+				ep = os.Symlink(target, filepath.Join(twin, dir, name))
+				if e9 != nil && ep != nil {
+					if ee, ok := e9.(*g.Error); ok && ee.Errornum != errnoOf(ep) {
+						c.oracleFail("C17/errno", fmt.Sprintf("%s: Rerror carries %d, the POSIX operation failed with %d (%v)", what, ee.Errornum, errnoOf(ep), ep), line)
+					}
+				}
+				live = append(live, filepath.Join(dir, name))
+			case 9: // hard link (9P2000.u only): ext names the fid of the existing file
+				if !dotu {
+					continue
+				}
+				src := []string{"a", "b"}[r.Intn(2)]
+				name := []string{"hl1", "hl2", "b", "d1"}[r.Intn(4)]
+				what = fmt.Sprintf("link %s -> %s", name, src)
+				sf, werr := e.c.FWalk(src)
+				df, werr2 := e.c.FWalk("")
+				e9 = werr
+				if werr == nil && werr2 == nil {
+					e9 = e.c.Create(df, name, g.DMLINK, g.OREAD, fmt.Sprint(sf.Fid))
+				}
+				if sf != nil {
+					e.c.Clunk(sf)
+				}
+				if df != nil {
+					e.c.Clunk(df)
+				}
+				ep = os.Link(filepath.Join(twin, src), filepath.Join(twin, name))
+				if e9 != nil && ep != nil {
+					if ee, ok := e9.(*g.Error); ok && ee.Errornum != errnoOf(ep) {
+						c.oracleFail("C17/errno", fmt.Sprintf("%s: Rerror carries %d, the POSIX operation failed with %d (%v)", what, ee.Errornum, errnoOf(ep), ep), line)
+					}
+				}
+				live = append(live, name)
 			case 0: // create file
 				dir := []string{"", "d1", "d2"}[r.Intn(3)]
 				name := fmt.Sprintf("n%d", r.Intn(4))
@@ -885,7 +991,8 @@ func genC17(c *Ctx) {
 				nn := []string{"renamed", "a", "b", "r2"}[r.Intn(4)]
 				what = fmt.Sprintf("rename %s to %s", p, nn)
 				e9 = wstat(e.c, p, func(d *g.Dir) { d.Name = nn })
-				ep = os.Rename(filepath.Join(twin, p), filepath.Join(twin, filepath.Dir(p), nn))
+				// rename(2) itself: os.Rename adds a check of its own for existing directories
+				ep = syscall.Rename(filepath.Join(twin, p), filepath.Join(twin, filepath.Dir(p), nn))
 				live = append(live, filepath.Join(filepath.Dir(p), nn))
 			case 7: // set mtime
 				p := []string{"a", "b"}[r.Intn(2)]
@@ -907,8 +1014,17 @@ func genC17(c *Ctx) {
 			}
 			c.count("op:" + strings.Fields(what)[0])
 			if (e9 == nil) != (ep == nil) {
-				c.oracleFail("C17/outcome/"+strings.Fields(what)[0], fmt.Sprintf("%s: through 9P %v, the POSIX operation %v", what, e9, ep), line)
-				break
+				kind := strings.Fields(what)[0]
+				if (kind == "symlink" || kind == "link") && e9 != nil && ep == nil {
+					rel := strings.TrimPrefix(strings.Fields(what)[1], "/")
+					if _, lerr := os.Lstat(filepath.Join(e.root, rel)); lerr == nil && strings.Contains(e9.Error(), "open ") {
+						kind = "created-but-open-failed" // the object was made; only the follow-up open (through a dangling link) failed
+					}
+				}
+				c.oracleFail("C17/outcome/"+kind, fmt.Sprintf("%s: through 9P %v, the POSIX operation %v", what, e9, ep), line)
+				if kind != "created-but-open-failed" {
+					break
+				}
 			}
 			if d := diffSnap(snapTree(e.root), snapTree(twin)); d != "" {
 				c.oracleFail("C17/tree/"+strings.Fields(what)[0], fmt.Sprintf("after %s (9P: %v): %s", what, e9, d), line)
@@ -935,7 +1051,7 @@ func wstat(cl *g.Clnt, p string, f func(d *g.Dir)) error {
 
 // ---------------- C18 ----------------
 
-var escGrammar = []string{"..", ".", "", "/", "../..", "../../..", "../secret", "/../secret", "..//secret", "./../secret",
+var escGrammar = []string{"../export.bak", "../export.bak/inner2", "/../export.bak/inner2", "../exportX", "../export.bak/..", "..", ".", "", "/", "../..", "../../..", "../secret", "/../secret", "..//secret", "./../secret",
 	"d/../../secret", "d/../..", "/etc/passwd", "../export/../secret", "..\x00", "d/..", "....", "..."}
 
 func genC18(c *Ctx) {
@@ -979,13 +1095,17 @@ func genC18(c *Ctx) {
 		os.WriteFile(filepath.Join(e.outer, "secret"), []byte("TOP SECRET"), 0o644)
 		os.Mkdir(filepath.Join(e.outer, "sdir"), 0o755)
 		os.WriteFile(filepath.Join(e.outer, "sdir", "inner"), []byte("INNER"), 0o644)
+		os.Mkdir(filepath.Join(e.outer, "export.bak"), 0o755) // a sibling whose name starts with the root's
+		os.WriteFile(filepath.Join(e.outer, "export.bak", "inner2"), []byte("INNER"), 0o644)
+		os.WriteFile(filepath.Join(e.outer, "exportX"), []byte("TOP SECRET"), 0o644)
 		os.MkdirAll(filepath.Join(e.root, "d", "e"), 0o755)
 		os.WriteFile(filepath.Join(e.root, "d", "file"), []byte("inside"), 0o644)
 		os.WriteFile(filepath.Join(e.root, "top"), []byte("inside-top"), 0o644)
 		outerBefore := snapOuter(e)
 		secretIno := inoOf(filepath.Join(e.outer, "secret"))
 		outerInos := map[uint64]bool{secretIno: true, inoOf(e.outer): true, inoOf(filepath.Join(e.outer, "sdir")): true,
-			inoOf(filepath.Join(e.outer, "sdir", "inner")): true}
+			inoOf(filepath.Join(e.outer, "sdir", "inner")): true, inoOf(filepath.Join(e.outer, "export.bak")): true,
+			inoOf(filepath.Join(e.outer, "export.bak", "inner2")): true, inoOf(filepath.Join(e.outer, "exportX")): true}
 		check := func(what string, q []g.Qid, data []byte) {
 			for _, x := range q {
 				if outerInos[x.Path] {
@@ -1127,4 +1247,25 @@ func snapOuter(e *ufsEnv) string {
 		return nil
 	})
 	return strings.Join(d, "|")
+}
+
+// witnessCtx lets corpus witnesses report through the run's oracle channel.
+var witnessCtx *Ctx
+
+// witnessK5 replays the known finding K-5: creating a symlink to a missing target.
+func witnessK5(c *Ctx, line string) {
+	e, err := newUfs(8192+24, true)
+	if err != nil {
+		return
+	}
+	defer e.close()
+	df, err := e.c.FWalk("")
+	if err != nil {
+		return
+	}
+	e9 := e.c.Create(df, "dangling", g.DMSYMLINK, g.OREAD, "no-such-target")
+	_, lerr := os.Lstat(filepath.Join(e.root, "dangling"))
+	if e9 != nil && lerr == nil {
+		c.oracleFail("C17/outcome/created-but-open-failed", fmt.Sprintf("symlink /dangling -> no-such-target: through 9P %v, yet the link exists", e9), line)
+	}
 }
